@@ -144,17 +144,14 @@ Definition Unmodelled12 (w : world) (o : op) : bool :=
 (* neither panic nor out of fuel *)
 Definition runs {A} (m : W A) (w : world) : Prop := exists r w', m w = Val (r, w').
 
-(* operations whose no-panic proof is finished (partial-coverage rule): the rest is [pending_op] *)
+(* operations whose no-panic proof is finished (partial-coverage rule): the rest is [pending_op].
+   Every constructor is covered except set_character_data with a Float value (f64::to_string is not modelled);
+   move_element_here / _at are covered for moves within one model only (side condition [side12] of the theorem:
+   the cross-model path move_element_full is pending). *)
 Definition covered_op (o : op) : bool :=
   match o with
-  | OpSetComment _ _ | OpRemoveAttr _ _ | OpSetAttr _ _ _ | OpInsertCItem _ _ _ | OpRemoveCItem _ _ | OpRemoveCData _
-  | OpNewModel | OpCreateSub _ _ | OpCreateSubAt _ _ _ | OpGetOrCreate _ _
-  | OpCreateNamed _ _ _ | OpCreateNamedAt _ _ _ _ | OpGetOrCreateNamed _ _ _
-  | OpSetItemName _ _ | OpSetRefTarget _ _ | OpAddToFile _ _ | OpCreateFile _ _ _
-  | OpRemove _ _ | OpRemoveKind _ _ | OpRemoveFromFile _ _ | OpRemoveFile _ _
-  | OpCopy _ _ | OpCopyAt _ _ _ => true
-  | OpSetCData _ v => match v with DFloat _ => false | _ => true end     (* f64::to_string is not modelled *)
-  | _ => false
+  | OpSetCData _ v => match v with DFloat _ => false | _ => true end
+  | _ => true
   end.
 Definition pending_op (o : op) : bool := negb (covered_op o).
 
